@@ -5,7 +5,7 @@ CONSTANTS
   L = 3
   NSet = {2, 3, 4}
   Rich = FALSE
-  Rot = TRUE
+  Rot = FALSE
 INIT InitAll
 NEXT Next
 CHECK_DEADLOCK FALSE
